@@ -39,7 +39,8 @@ class Harness:
 def obligation(prop, name, ensures=None, fns=(), mode="R", tier="quick", note="", **opts):
     def deco(f):
         REGISTRY.setdefault(prop, []).append(
-            Harness(prop, name, f, list(ensures) if ensures else [name], list(fns), mode, tier, opts, note))
+            Harness(prop, name, f, (list(ensures) if ensures else [name]) + [f"{name}.noraise"] +
+                    ([f"{name}.domain"] if opts.get("domain_checks") else []), list(fns), mode, tier, opts, note))
         return f
     return deco
 
@@ -111,6 +112,7 @@ class SymVC(BaseVC):
         self.c = c
         self.loader = loader
         self.inputs = {}
+        self.scale = {}
         c.pi()
 
     @property
@@ -140,6 +142,19 @@ class SymVC(BaseVC):
         self.inputs[name] = v.t
         return v
 
+    def angle(self, name, lo=None, hi=None, **kw):
+        """a real input measured in the angle unit (degree 1 for the homogeneity check)."""
+        v = SNum(z3.Real(name), 1)
+        self.inputs[name] = v.t
+        if self.c.norm_angles:
+            self.scale[name] = 2 * math.pi  # model values are in turns
+        # bounds are stated in units of pi so that they scale with the angle unit
+        if lo is not None:
+            self.c.assume(sym.sbool(v >= self.pi * Fraction(lo / math.pi).limit_denominator(10 ** 6)))
+        if hi is not None:
+            self.c.assume(sym.sbool(v <= self.pi * Fraction(hi / math.pi).limit_denominator(10 ** 6)))
+        return v
+
     def vec(self, name, n=3, lo=None, hi=None):
         return np.array([self.real(f"{name}[{i}]", lo, hi) for i in range(n)], dtype=object)
 
@@ -164,6 +179,23 @@ class SymVC(BaseVC):
             raise RuntimeError(f"harness {self.h.name} emitted undeclared obligation {name}")
         self.c.ensure(name, cond, note)
 
+    def cut(self, name, cond, note=""):
+        """assert-then-assume: the fact is an obligation here and a hypothesis for the rest of the path."""
+        self.ensure(name, cond, note)
+        self.assume(cond)
+
+    def spec(self):
+        """context manager: expressions built inside belong to the specification (no domain obligations)."""
+        c = self.c
+
+        class _S:
+            def __enter__(self_):
+                c.in_spec = True
+
+            def __exit__(self_, *a):
+                c.in_spec = False
+        return _S()
+
     def eq(self, a, b, tol=None):
         if isinstance(a, np.ndarray) or isinstance(b, np.ndarray):
             a, b = np.asarray(a, dtype=object), np.asarray(b, dtype=object)
@@ -182,8 +214,45 @@ class SymVC(BaseVC):
     def fmode(self, on=True):
         self.c.fmode = on
 
+    def is_multiple(self, x, period):
+        """exists k in Z. x == period*k, offered to the solver as a disjunction of witnesses built from the
+        floor terms that occur in x (the solvers cannot find the witness themselves, DESIGN 3.10(e))."""
+        import itertools
+        xt = z3.simplify(self.c.N(sym._real(sym._as_arith(x))))
+        pt = self.c.N(sym._real(sym._as_arith(period)))
+        floors, seen, stack = [], set(), [xt] + list(self.c.pc)
+        while stack:
+            t = stack.pop()
+            if t.get_id() in seen:
+                continue
+            seen.add(t.get_id())
+            if z3.is_app(t) and t.decl().kind() == z3.Z3_OP_TO_INT:
+                floors.append(t)
+            elif z3.is_const(t) and t.sort() == z3.IntSort() and t.decl().kind() == z3.Z3_OP_UNINTERPRETED \
+                    and "!" in t.decl().name():
+                floors.append(t)
+            stack.extend(t.children())
+        cands = []
+        for r in range(0, min(3, len(floors)) + 1):
+            for sub in itertools.combinations(floors, r):
+                for signs in itertools.product((1, -1), repeat=r):
+                    base = sum((sg * f for sg, f in zip(signs, sub)), z3.IntVal(0))
+                    for c in range(-2, 3):
+                        cands.append(base + c)
+                if len(cands) > 1500:
+                    break
+        return SBool(z3.Or(*[xt == pt * z3.ToReal(k) for k in cands]))
+
     def fn(self, spec):
         return self.loader.fn(spec)
+
+    def stub(self, spec, f):
+        """replace callee `spec` by a contract stub (modular verification); symbolic mode only."""
+        if spec not in self.loader.stubs:
+            if any(k for k in self.loader.cache if k != spec and not isinstance(k, tuple)):
+                pass
+            self.loader.stubs[spec] = f
+            STUBBED.add(spec)
 
     def cls(self, spec, **kw):
         return self.loader.cls(spec, **kw)
@@ -211,6 +280,7 @@ class SymVC(BaseVC):
 
 
 AXIOMS_USED = set()
+STUBBED = set()
 
 
 class Rejected(BaseException):
@@ -268,6 +338,9 @@ class ConcVC(BaseVC):
             raise Rejected()
         return v
 
+    def angle(self, name, lo=None, hi=None, special=()):
+        return self.real(name, lo, hi, special)
+
     def bool(self, name, **kw):
         v = bool(self.values[name]) if name in self.values else self.rng.random() < 0.5
         self.inputs[name] = v
@@ -313,6 +386,13 @@ class ConcVC(BaseVC):
         if not ok:
             self.failed.append(name)
 
+    def cut(self, name, cond, note=""):
+        self.ensure(name, cond, note)
+
+    def spec(self):
+        import contextlib
+        return contextlib.nullcontext()
+
     def eq(self, a, b, tol=1e-9):
         a, b = np.asarray(a, dtype=float), np.asarray(b, dtype=float)
         if a.shape != b.shape:
@@ -326,6 +406,13 @@ class ConcVC(BaseVC):
         return a < b + tol * (1 + abs(a) + abs(b))
 
     def fmode(self, on=True):
+        pass
+
+    def is_multiple(self, x, period):
+        q = x / period
+        return abs(q - round(q)) < 1e-9 * (1 + abs(q))
+
+    def stub(self, spec, f):
         pass
 
     def fn(self, spec):
@@ -342,6 +429,9 @@ class ConcVC(BaseVC):
 
     def new(self, spec, **attrs):
         C = self.fn(spec)
+        if getattr(C, "__abstractmethods__", None):
+            C = type(C.__name__, (C,), {})
+            C.__abstractmethods__ = frozenset()
         o = object.__new__(C)
         for k, v in attrs.items():
             object.__setattr__(o, k, v)
@@ -357,6 +447,52 @@ class ConcVC(BaseVC):
 
 
 # ----------------------------------------------------------------------------------------------
+def _forked(fn, hard_s):
+    """Run fn() in a forked child with a hard wall-clock limit (z3 time-outs are not always honoured)."""
+    import pickle
+    import select
+    import signal
+    r, w = os.pipe()
+    pid = os.fork()
+    if pid == 0:
+        try:
+            os.close(r)
+            try:
+                out = fn()
+            except BaseException as e:  # noqa
+                out = ("unknown", None, f"{type(e).__name__}: {e}")
+            with os.fdopen(w, "wb") as f:
+                pickle.dump(out, f)
+        finally:
+            os._exit(0)
+    os.close(w)
+    data = b""
+    deadline = time.time() + hard_s
+    with os.fdopen(r, "rb") as f:
+        while True:
+            left = deadline - time.time()
+            if left <= 0:
+                break
+            rl, _, _ = select.select([f], [], [], left)
+            if not rl:
+                break
+            chunk = os.read(f.fileno(), 1 << 16)
+            if not chunk:
+                break
+            data += chunk
+    try:
+        os.kill(pid, signal.SIGKILL)
+    except ProcessLookupError:
+        pass
+    os.waitpid(pid, 0)
+    if not data:
+        return ("unknown", None, "hard time-out")
+    try:
+        return pickle.loads(data)
+    except Exception:
+        return ("unknown", None, "truncated answer")
+
+
 def _solve_z3(fml, timeout_ms, rlimit=None):
     s = z3.Solver()
     s.set("timeout", timeout_ms)
@@ -402,12 +538,14 @@ def _solve_cvc5(fml, timeout_ms):
     return r, time.time() - t0
 
 
-def _model_values(s, inputs):
+def _model_values(s, inputs, scale=None):
     m = s.model()
     out = {}
     for name, t in inputs.items():
         v = m.eval(t, model_completion=True)
         out[name] = _z3_to_py(v)
+        if scale and name in scale and isinstance(out[name], (int, float)):
+            out[name] = float(out[name]) * scale[name]
     return out
 
 
@@ -426,48 +564,85 @@ def _z3_to_py(v):
     return str(v)
 
 
-def discharge(o, inputs, opts):
+_DCACHE = {}
+
+
+def discharge(o, inputs, opts, scale=None):
+    """Conjunctive goals are split; identical VCs (same hypotheses and goal terms) are solved once."""
+    g = o.goal
+    parts = list(g.children()) if z3.is_and(g) and opts.get("split_goals", True) else [g]
+    total, backends, worst = 0.0, [], None
+    for part in parts:
+        key = (tuple(a.get_id() for a in o.axioms), tuple(a.get_id() for a in o.pc), part.get_id())
+        if key not in _DCACHE:
+            o2 = explore.Obl(o.name, o.pc, part, o.axioms, o.path, o.note)
+            _DCACHE[key] = _discharge1(o2, inputs, opts, scale)
+            total += _DCACHE[key]["seconds"]
+        d = _DCACHE[key]
+        backends.append(d["backend"])
+        if d["verdict"] == "sat":
+            return {**d, "seconds": total}
+        if d["verdict"] != "unsat":
+            worst = d
+    if worst is not None:
+        return {**worst, "seconds": total}
+    return {"verdict": "unsat", "backend": backends[0] if len(set(backends)) == 1 else "+".join(sorted(set(backends))), "seconds": total}
+
+
+def _discharge1(o, inputs, opts, scale=None):
     """Returns dict(verdict=unsat|sat|unknown|vacuous, backend, seconds, model)."""
     tmo = int(opts.get("timeout_ms", 20000))
     fml = list(o.axioms) + list(o.pc) + [z3.Not(o.goal)]
     goal_s = z3.simplify(o.goal)
     if z3.is_true(goal_s):
         return {"verdict": "unsat", "backend": "simplify", "seconds": 0.0}
-    total = 0.0
-    s, r, dt = _solve_z3(fml, tmo, opts.get("rlimit"))
-    total += dt
-    backend = "z3"
-    if r == "unknown":
-        for tac in opts.get("tactics", ["qfnra-nlsat"]):
-            s2, r2, dt = _solve_z3_tactic(fml, tmo, tac)
-            total += dt
-            if r2 != "unknown":
-                s, r, backend = s2, r2, f"z3:{tac}"
-                break
+    t0 = time.time()
+
+    def job():
+        if o.axioms and opts.get("try_without_axioms", True):
+            s0, r0, dt0 = _solve_z3(list(o.pc) + [z3.Not(o.goal)], min(tmo, 3000))
+            if r0 == "unsat":  # fewer hypotheses: still a proof
+                return ("unsat", None, "z3(pc-only)")
+        s, r, dt = _solve_z3(fml, tmo, opts.get("rlimit"))
+        backend = "z3"
+        if r == "unknown":
+            for tac in opts.get("tactics", ["qfnra-nlsat"]):
+                s2, r2, dt = _solve_z3_tactic(fml, tmo, tac)
+                if r2 != "unknown":
+                    s, r, backend = s2, r2, f"z3:{tac}"
+                    break
+        mv = None
+        if r == "sat":
+            try:
+                mv = _model_values(s, inputs, scale)
+            except Exception:
+                mv = None
+        return (r, mv, backend)
+
+    n_tac = 1 + len(opts.get("tactics", ["qfnra-nlsat"]))
+    r, mv, backend = _forked(job, n_tac * tmo / 1000 + 5)
     if r == "unknown" and opts.get("cvc5", True):
         r3, dt = _solve_cvc5(fml, tmo)
-        total += dt
         if r3 == "unsat":
-            return {"verdict": "unsat", "backend": "cvc5", "seconds": total}
+            return {"verdict": "unsat", "backend": "cvc5", "seconds": time.time() - t0}
         if r3 == "sat":
-            return {"verdict": "sat", "backend": "cvc5", "seconds": total, "model": None}
+            return {"verdict": "sat", "backend": "cvc5", "seconds": time.time() - t0, "model": None}
+    total = time.time() - t0
     if r == "unsat":
         return {"verdict": "unsat", "backend": backend, "seconds": total}
     if r == "sat":
-        try:
-            mv = _model_values(s, inputs)
-        except Exception:
-            mv = None
         return {"verdict": "sat", "backend": backend, "seconds": total, "model": mv}
-    return {"verdict": "unknown", "backend": backend, "seconds": total}
+    return {"verdict": "unknown", "backend": str(backend), "seconds": total}
 
 
 def cover(o, opts):
-    s = z3.Solver()
-    s.set("timeout", int(opts.get("cover_timeout_ms", 5000)))
-    s.add(*o.axioms)
-    s.add(*o.pc)
-    return str(s.check())
+    def job():
+        s = z3.Solver()
+        s.set("timeout", int(opts.get("cover_timeout_ms", 5000)))
+        s.add(*o.axioms)
+        s.add(*o.pc)
+        return (str(s.check()), None, "z3")
+    return _forked(job, opts.get("cover_timeout_ms", 5000) / 1000 + 3)[0]
 
 
 # ----------------------------------------------------------------------------------------------
@@ -485,6 +660,7 @@ def run_symbolic(h, tier="quick", stubs=None):
     extract.FUNCTIONS_USED.clear()
     AXIOMS_USED.clear()
     explore.UF_USED.clear()
+    STUBBED.clear()
     shims.SHIMS_USED.clear()
     t0 = time.time()
     try:
@@ -492,13 +668,19 @@ def run_symbolic(h, tier="quick", stubs=None):
     except Exception:
         return {"harness": h.name, "status": "crash", "error": traceback.format_exc(), "obligations": {}}
     inputs = holder["vc"].inputs if "vc" in holder else {}
+    scale = holder["vc"].scale if "vc" in holder else {}
     per = {n: {"instances": 0, "unsat": 0, "sat": 0, "unknown": 0, "vacuous": 0, "backends": {}, "seconds": 0.0,
                "models": [], "notes": []} for n in h.ensures}
     cover_cache = {}
     for o in res.obls:
+        if o.name == explore.NORAISE:
+            o.name = f"{h.name}.noraise"
+            per[o.name]["notes"].append(o.note)
+        if o.name == "domain":
+            o.name = f"{h.name}.domain"
         rec = per[o.name]
         rec["instances"] += 1
-        d = discharge(o, inputs, opts)
+        d = discharge(o, inputs, opts, scale)
         rec["seconds"] += d["seconds"]
         rec["backends"][d["backend"]] = rec["backends"].get(d["backend"], 0) + 1
         if d["verdict"] == "unsat":
@@ -523,7 +705,7 @@ def run_symbolic(h, tier="quick", stubs=None):
         "unsupported": res.unsupported, "errors": res.errors, "branch_checks": res.branch_checks,
         "explore_s": res.seconds, "wall_s": time.time() - t0, "obligations": per,
         "functions": dict(extract.FUNCTIONS_USED), "lemmas": sorted(AXIOMS_USED), "mode": h.mode,
-        "uf": sorted(explore.UF_USED), "shims": sorted(shims.SHIMS_USED),
+        "stubbed": sorted(STUBBED), "uf": sorted(explore.UF_USED), "shims": sorted(shims.SHIMS_USED),
     }
 
 
